@@ -82,25 +82,48 @@ Proof.
     + rewrite Z.mod_small in L by lia. lia.
 Qed.
 
-(** evaluation of closed constants after a type / width has been fixed *)
+(** evaluation of closed constants after a type / width has been fixed.
+    Only syntactically closed terms are evaluated (vm_compute normalises under the branches of a
+    stuck match, which explodes on [Z.land x <large literal>] with a variable x). *)
 Ltac is_pos_lit p := lazymatch p with xH => idtac | xO ?q => is_pos_lit q | xI ?q => is_pos_lit q end.
 Ltac is_z_lit z := lazymatch z with Z0 => idtac | Zpos ?p => is_pos_lit p | Zneg ?p => is_pos_lit p end.
+Ltac is_closed_z z :=
+  lazymatch z with
+  | Z0 => idtac
+  | Zpos ?p => is_pos_lit p
+  | Zneg ?p => is_pos_lit p
+  | Z.add ?a ?b => is_closed_z a; is_closed_z b
+  | Z.sub ?a ?b => is_closed_z a; is_closed_z b
+  | Z.mul ?a ?b => is_closed_z a; is_closed_z b
+  | Z.pow ?a ?b => is_closed_z a; is_closed_z b
+  | Z.opp ?a => is_closed_z a
+  | pow2 ?a => is_closed_z a
+  | mask ?a => is_closed_z a
+  end.
+Ltac is_closed_ty t :=
+  lazymatch t with
+  | Build_ity ?b true => is_closed_z b
+  | Build_ity ?b false => is_closed_z b
+  | i8 => idtac | u8 => idtac | i16 => idtac | u16 => idtac
+  | i32 => idtac | u32 => idtac | i64 => idtac | u64 => idtac
+  | U ?b => is_closed_z b
+  end.
 Ltac ev t := let v := eval vm_compute in t in is_z_lit v; change t with v in *.
 Ltac consts :=
   repeat match goal with
-         | |- context [pow2 ?n] => ev (pow2 n)
-         | |- context [mask ?n] => ev (mask n)
-         | |- context [tmin ?t] => ev (tmin t)
-         | |- context [tmax ?t] => ev (tmax t)
-         | |- context [imin ?t] => ev (imin t)
-         | |- context [imax ?t] => ev (imax t)
-         | |- context [2 ^ ?n] => ev (2 ^ n)
-         | H : context [pow2 ?n] |- _ => ev (pow2 n)
-         | H : context [tmin ?t] |- _ => ev (tmin t)
-         | H : context [tmax ?t] |- _ => ev (tmax t)
-         | H : context [imin ?t] |- _ => ev (imin t)
-         | H : context [imax ?t] |- _ => ev (imax t)
-         | H : context [2 ^ ?n] |- _ => ev (2 ^ n)
+         | |- context [pow2 ?n] => is_closed_z n; ev (pow2 n)
+         | |- context [mask ?n] => is_closed_z n; ev (mask n)
+         | |- context [tmin ?t] => is_closed_ty t; ev (tmin t)
+         | |- context [tmax ?t] => is_closed_ty t; ev (tmax t)
+         | |- context [imin ?t] => is_closed_ty t; ev (imin t)
+         | |- context [imax ?t] => is_closed_ty t; ev (imax t)
+         | |- context [2 ^ ?n] => is_closed_z n; ev (2 ^ n)
+         | H : context [pow2 ?n] |- _ => is_closed_z n; ev (pow2 n)
+         | H : context [tmin ?t] |- _ => is_closed_ty t; ev (tmin t)
+         | H : context [tmax ?t] |- _ => is_closed_ty t; ev (tmax t)
+         | H : context [imin ?t] |- _ => is_closed_ty t; ev (imin t)
+         | H : context [imax ?t] |- _ => is_closed_ty t; ev (imax t)
+         | H : context [2 ^ ?n] |- _ => is_closed_z n; ev (2 ^ n)
          end.
 
 (* split a type satisfying WT into the eight concrete types *)
@@ -138,9 +161,9 @@ Qed.
 Ltac consts2 :=
   consts;
   repeat match goal with
-         | |- context [ws ?w ?x] => ev (ws w x)
-         | |- context [wu ?w ?x] => ev (wu w x)
-         | |- context [cast ?t ?x] => ev (cast t x)
+         | |- context [ws ?w ?x] => is_closed_z w; is_closed_z x; ev (ws w x)
+         | |- context [wu ?w ?x] => is_closed_z w; is_closed_z x; ev (wu w x)
+         | |- context [cast ?t ?x] => is_closed_ty t; is_closed_z x; ev (cast t x)
          end.
 
 (* resolve one arithmetic operation whose operands are known to stay in range / are unsigned *)
@@ -162,3 +185,55 @@ Ltac range H := apply in_ty_range in H; consts.
 Ltac widths :=
   cbn [promote bits sgn negb andb orb i8 u8 i16 u16 i32 u32 i64 u64 U make_unsigned
        Z.ltb Z.leb Z.eqb Z.compare Pos.compare Pos.compare_cont Pos.eqb Bool.eqb] in *.
+
+(* conversions of values already in range are dropped *)
+Ltac smalls :=
+  repeat first [ rewrite ws_small by (consts; lia) | rewrite wu_small by (consts; lia) ].
+
+(* run the model forward: resolve arithmetic steps, split conditionals *)
+Ltac go :=
+  repeat first
+    [ arith_step; widths
+    | match goal with
+      | |- context [if ?c then _ else _] => let E := fresh "E" in destruct c eqn:E
+      end ];
+  cbn [rbind]; widths.
+
+(* finish: conversions to mod-form, constants, remaining conditionals, linear arithmetic *)
+Ltac fin :=
+  widths; rewrite ?cast_eq, ?ws_eq, ?wu_eq in * by (cbn; lia); widths; consts; ifs;
+  try lia; try (f_equal; lia); try (f_equal; f_equal; lia).
+
+(** truncating division: everything the saturation / idiv proofs need, so that [x ÷ y] can be
+    treated as an opaque variable by lia *)
+Lemma quot_cases x y : y <> 0 ->
+  (y = 1 -> x ÷ y = x) /\ (y = -1 -> x ÷ y = - x)
+  /\ (y <> 1 -> y <> -1 -> 2 * Z.abs (x ÷ y) <= Z.abs x)
+  /\ (Z.abs (x ÷ y) <= Z.abs x)
+  /\ (0 <= x -> 0 < y -> 0 <= x ÷ y) /\ (0 <= x -> y < 0 -> x ÷ y <= 0)
+  /\ (x <= 0 -> 0 < y -> x ÷ y <= 0) /\ (x <= 0 -> y < 0 -> 0 <= x ÷ y).
+Proof.
+  intros Hy.
+  assert (Hb : 1 <= Z.abs y) by lia.
+  assert (Ha : 0 <= Z.abs x) by lia.
+  assert (Hq : 0 <= Z.abs x / Z.abs y) by (apply Z.div_pos; lia).
+  assert (Hm : Z.abs y * (Z.abs x / Z.abs y) <= Z.abs x) by (apply Z.mul_div_le; lia).
+  assert (H1q : Z.abs x / Z.abs y <= Z.abs x) by nia.
+  assert (H2q : 2 <= Z.abs y -> 2 * (Z.abs x / Z.abs y) <= Z.abs x) by nia.
+  assert (E : x ÷ y = Z.sgn x * Z.sgn y * (Z.abs x / Z.abs y)) by (now apply Z.quot_div).
+  repeat split.
+  - intros ->. apply Z.quot_1_r.
+  - intros ->. change (-1) with (- (1)). rewrite Z.quot_opp_r by lia. now rewrite Z.quot_1_r.
+  - intros. assert (2 <= Z.abs y) by lia. rewrite E.
+    destruct (Z.sgn_spec x) as [[? ->]|[[? ->]|[? ->]]], (Z.sgn_spec y) as [[? ->]|[[? ->]|[? ->]]]; lia.
+  - rewrite E.
+    destruct (Z.sgn_spec x) as [[? ->]|[[? ->]|[? ->]]], (Z.sgn_spec y) as [[? ->]|[[? ->]|[? ->]]]; lia.
+  - intros. rewrite E.
+    destruct (Z.sgn_spec x) as [[? ->]|[[? ->]|[? ->]]], (Z.sgn_spec y) as [[? ->]|[[? ->]|[? ->]]]; lia.
+  - intros. rewrite E.
+    destruct (Z.sgn_spec x) as [[? ->]|[[? ->]|[? ->]]], (Z.sgn_spec y) as [[? ->]|[[? ->]|[? ->]]]; lia.
+  - intros. rewrite E.
+    destruct (Z.sgn_spec x) as [[? ->]|[[? ->]|[? ->]]], (Z.sgn_spec y) as [[? ->]|[[? ->]|[? ->]]]; lia.
+  - intros. rewrite E.
+    destruct (Z.sgn_spec x) as [[? ->]|[[? ->]|[? ->]]], (Z.sgn_spec y) as [[? ->]|[[? ->]|[? ->]]]; lia.
+Qed.
